@@ -43,7 +43,7 @@ def strategy(tier):
                 families=("nlp", "nlp", "qp", "degenerate", "infeasible", "unbounded", "patternvar", "intbox", "concavebox", "convexbox", "convexbox"),
                 max_n=4 if tier == "quick" else 6,
                 max_m=3,
-                iteration_limit=150 if tier == "quick" else 300,
+                iteration_limit=150 if tier == "quick" else draw(st.sampled_from([300, 300, 1000])),
             )
         )
         extra = {}
